@@ -223,6 +223,31 @@ def tree2parameter(
         raise exceptions.UnknownTreeTypeError(datatype=s.data, atom="Parameter")
 
 
+def is_conflicting_definition(first: atoms.Atom, second: atoms.Atom) -> bool:
+    """Check if two atoms with the same name define different things
+
+    Parameters
+    ----------
+    first : atoms.Atom
+        The first definition
+    second : atoms.Atom
+        The second definition
+
+    Returns
+    -------
+    bool
+        True if the atoms are of different kinds (e.g. a state and a parameter),
+        or have different values / right-hand sides
+    """
+    if type(first) is not type(second):
+        return True
+    if isinstance(first, atoms.Assignment) and isinstance(second, atoms.Assignment):
+        if first.value is None or second.value is None:
+            return first.value is not second.value
+        return first.value.tree != second.value.tree
+    return first.value != second.value
+
+
 class TreeToODE(lark.Transformer):
     """Transform a lark tree to an ODE
 
@@ -310,6 +335,7 @@ class TreeToODE(lark.Transformer):
         # breakpoint()
 
         comments = []
+        first_definition: dict[str, atoms.Atom] = {}
         for line in s:  # Each line in the block
             if isinstance(line, atoms.Comment):
                 comments.append(line)
@@ -320,6 +346,12 @@ class TreeToODE(lark.Transformer):
                 continue
 
             for atom in line:  # State, Parameters or Assignment
+                # Atoms are collected in sets and two assignments compare equal
+                # when they depend on the same names, so a conflicting second
+                # definition would silently be dropped below. Detect it here.
+                previous = first_definition.setdefault(atom.name, atom)
+                if previous is not atom and is_conflicting_definition(previous, atom):
+                    raise exceptions.DuplicateSymbolError({atom.name})
                 for component in atom.components:
                     components[component][mapping[type(atom)]].add(atom)
 
